@@ -16,8 +16,8 @@ from common import Check
 import c09
 
 M = 9
-SPEC_IDS = {n: i + 1 for i, (n, _) in enumerate(hc.SIMPLE_CPS)}
-SPEC_IDS.update({n: 10 + i for i, (n, _) in enumerate(hc.COMPLEX_CPS)})
+SPEC_IDS = {("CPSUB", n): i + 1 for i, (n, _) in enumerate(hc.SIMPLE_CPS)}
+SPEC_IDS.update({(sub, n): 20 + i for i, (sub, n, _) in enumerate(hc.COMPLEX_CPS)})
 
 
 def gen(rng):
@@ -37,15 +37,19 @@ def gen(rng):
             for _ in range(rng.choice([0, 1, 1, 2, 3])):
                 tag += 1
                 proto = rng.choice([None, None] + protos)
-                if rng.random() < 0.65:
+                if rng.random() < 0.6:
                     n, d = rng.choice(hc.SIMPLE_CPS)
                     v = rng.choice(["", str(rng.randint(1, 9999)), str(rng.randint(1, 9999))])
-                    cps.append(dict(name=n, proto=proto, value=v, sub=None, tag=tag))
+                    if n == "CP_CANFDTxMaxDataLength":
+                        v = rng.choice(["", "TX_DL=64 CANFD", "TX_DL = 12 CANFD", "TX_DL=8", "whatever"])
+                    cps.append(dict(subset="CPSUB", name=n, proto=proto, value=v, sub=None, tag=tag))
                 else:
-                    n, subs = hc.COMPLEX_CPS[0]
+                    sub, n, subs = rng.choice(hc.COMPLEX_CPS)
                     k = rng.choice([len(subs), len(subs), len(subs) - 1, 1])
-                    sv = [rng.choice(["", str(rng.randint(1, 4000))]) for _ in range(k)]
-                    cps.append(dict(name=n, proto=proto, value=None, sub=sv, tag=tag))
+                    sv = []
+                    for (sn, sd) in subs[:k]:
+                        sv.append(["x"] if sd is hc.NESTED else rng.choice(["", str(rng.randint(1, 4000))]))
+                    cps.append(dict(subset=sub, name=n, proto=proto, value=None, sub=sv, tag=tag))
         L["cps"] = cps
     return layers
 
@@ -64,9 +68,12 @@ def emit(layers):
             if c["sub"] is None:
                 val = f"<SIMPLE-VALUE>{c['value']}</SIMPLE-VALUE>"
             else:
-                val = "<COMPLEX-VALUE>" + "".join(f"<SIMPLE-VALUE>{x}</SIMPLE-VALUE>" for x in c["sub"]) + "</COMPLEX-VALUE>"
+                val = "<COMPLEX-VALUE>" + "".join(
+                    (f"<COMPLEX-VALUE><SIMPLE-VALUE>{x[0]}</SIMPLE-VALUE></COMPLEX-VALUE>" if isinstance(x, list)
+                     else f"<SIMPLE-VALUE>{x}</SIMPLE-VALUE>") for x in c["sub"]) + "</COMPLEX-VALUE>"
             pr = "" if c["proto"] is None else f'<PROTOCOL-SNREF SHORT-NAME="L{c["proto"]}"/>'
-            refs += (f'<COMPARAM-REF ID-REF="CPSUB.{c["name"]}" DOCREF="CPSUB" DOCTYPE="COMPARAM-SUBSET">{val}'
+            sub = c.get("subset", "CPSUB")
+            refs += (f'<COMPARAM-REF ID-REF="{sub}.{c["name"]}" DOCREF="{sub}" DOCTYPE="COMPARAM-SUBSET">{val}'
                      f'<DESC><p>{c["tag"]}</p></DESC>{pr}</COMPARAM-REF>')
         marker = f"<SHORT-NAME>L{L['id']}</SHORT-NAME>"
         xml = xml.replace(marker, marker + f"<COMPARAM-REFS>{refs}</COMPARAM-REFS>", 1)
@@ -81,16 +88,17 @@ def tag_of(cp):
 def w_specs():
     out = []
     for n, d in hc.SIMPLE_CPS:
-        out.append([SPEC_IDS[n], cc.w_name(n), cc.w_name(d), False, []])
-    for n, subs in hc.COMPLEX_CPS:
-        out.append([SPEC_IDS[n], cc.w_name(n), [], True, [[cc.w_name(sn), [cc.w_name(sd)]] for sn, sd in subs]])
+        out.append([SPEC_IDS[("CPSUB", n)], cc.w_name(n), cc.w_name(d), False, []])
+    for sub, n, subs in hc.COMPLEX_CPS:
+        out.append([SPEC_IDS[(sub, n)], cc.w_name(n), [], True,
+                    [[cc.w_name(sn), [] if sd is hc.NESTED else [cc.w_name(sd)]] for sn, sd in subs]])
     return out
 
 
 def w_hier(layers):
     return [[L["id"], L["type"], [[p["target"], []] for p in L["parents"]],
-             [[SPEC_IDS[c["name"]], cc.w_opt(c["proto"]), cc.w_name(c["value"] or ""),
-               [] if c["sub"] is None else [([cc.w_name(x)] if True else []) for x in c["sub"]], c["tag"]]
+             [[SPEC_IDS[(c.get("subset", "CPSUB"), c["name"])], cc.w_opt(c["proto"]), cc.w_name(c["value"] or ""),
+               [] if c["sub"] is None else [[cc.w_name("N" if isinstance(x, list) else x)] for x in c["sub"]], c["tag"]]
               for c in L.get("cps", [])]] for L in layers]
 
 
@@ -100,11 +108,10 @@ def queries(layers):
     for n, _ in hc.SIMPLE_CPS:
         for p in [None] + protos:
             qs.append((n, p, None))
-    for n, subs in hc.COMPLEX_CPS:
+    for n in sorted(set(n for _, n, _ in hc.COMPLEX_CPS)):
         for p in [None] + protos:
-            for sn, _ in subs:
+            for sn in ("CP_CanPhysReqId", "CP_CanRespUSDTId", "CP_DoIPLogicalEcuAddress", "CP_NoSuchSub"):
                 qs.append((n, p, sn))
-            qs.append((n, p, "CP_NoSuchSub"))
     return qs
 
 
@@ -122,7 +129,7 @@ def spec_comparams(layers, i, memo=None):
         for k, v in spec_comparams(layers, p["target"], memo).items():
             d[k] = v
     for c in L.get("cps", []):
-        d[(c["name"], c["proto"])] = c
+        d[(c.get("subset", "CPSUB"), c["name"], c["proto"])] = c
     memo[i] = d
     return d
 
@@ -145,8 +152,15 @@ def main(argv=None):
                    dict(id=1, type=2, parents=[dict(target=0, excl=e)], locals=z,
                         cps=[dict(name="CP_Baudrate", proto=None, value="111111", sub=None, tag=1),
                              dict(name="CP_Baudrate", proto=0, value="500000", sub=None, tag=2),
-                             dict(name="CP_UniqueRespIdTable", proto=None, value=None, sub=["", "1234"], tag=3),
+                             dict(subset="CPSUB", name="CP_UniqueRespIdTable", proto=None, value=None, sub=["", ["x"], "1234"], tag=3),
                              dict(name="CP_CanFuncReqId", proto=None, value="", sub=None, tag=4)])])
+        # corpus: two protocols; the table of the other protocol (no CAN ids) is listed first
+        hs.append([dict(id=0, type=0, parents=[], locals=z, cps=[]), dict(id=1, type=0, parents=[], locals=z, cps=[]),
+                   dict(id=2, type=2, parents=[dict(target=0, excl=e), dict(target=1, excl=e)], locals=z,
+                        cps=[dict(subset="CPSUB2", name="CP_UniqueRespIdTable", proto=0, value=None, sub=["4097"], tag=1),
+                             dict(subset="CPSUB", name="CP_UniqueRespIdTable", proto=1, value=None, sub=["1001", ["x"], "1002"], tag=2),
+                             dict(subset="CPSUB", name="CP_CANFDTxMaxDataLength", proto=1, value="TX_DL=64 CANFD", sub=None, tag=3),
+                             dict(subset="CPSUB", name="CP_CANFDBaudrate", proto=1, value="4000000", sub=None, tag=4)])])
         for _ in range(200 if quick else 3000):
             hs.append(gen(rng))
     wires, idx = [], []
@@ -177,7 +191,7 @@ def main(argv=None):
         rep = {"layers": layers}
 
         def go():
-            return hc.load_docs([emit(layers), hc.cpsubset_doc(), hc.cpspec_doc()])
+            return hc.load_docs([emit(layers), hc.cpsubset_doc(), hc.cpsubset2_doc(), hc.cpspec_doc()])
 
         db, e, _ = cc.guarded(go, timeout=20)
         if e is not None:
@@ -216,38 +230,42 @@ def main(argv=None):
                         res.append([tag_of(cp), [[]]])
                     else:
                         res.append([tag_of(cp), [cc.w_name(v)]])
-                # oracle: the specific definition first, then the generic one
-                cand = want.get((n, p)) if p is not None else None
-                if cand is None:
-                    if p is not None:
-                        cand = want.get((n, None))
-                    else:
-                        named = [c for (nn, pp), c in want.items() if nn == n]
+                # oracle: the specific definition first, then the generic one (unique name only)
+                named = [c for (ss, nn, pp), c in want.items() if nn == n]
+                subsets = set(c.get("subset", "CPSUB") for c in named)
+                if len(subsets) <= 1:
+                    spec = [c for c in named if p is not None and c["proto"] == p]
+                    gen_ = [c for c in named if c["proto"] is None]
+                    if p is None:
                         cand = named[0] if len(named) == 1 else (None if not named else "any")
-                if cand != "any":
-                    if (cand is None) != (cp is None) or (cp is not None and tag_of(cp) != cand["tag"]):
-                        bad = (f"L{i}.get_comparam({n}, protocol={pn}) returns "
-                               f"{None if cp is None else tag_of(cp)}, most specific definition is "
-                               f"{None if cand is None else cand['tag']}")
-                        break
-                    if cp is not None and s is None and cand["sub"] is None:
-                        dflt = dict(hc.SIMPLE_CPS)[n]
-                        expv = cand["value"] or dflt
-                        if res[-1][1] != [cc.w_name(expv)]:
-                            bad = f"L{i}: value of {n} is {res[-1][1]}, expected {expv!r} (default {dflt})"
+                    else:
+                        cand = spec[0] if spec else (gen_[0] if gen_ else None)
+                    if cand != "any":
+                        if (cand is None) != (cp is None) or (cp is not None and tag_of(cp) != cand["tag"]):
+                            bad = (f"L{i}.get_comparam({n}, protocol={pn}) returns "
+                                   f"{None if cp is None else tag_of(cp)}, most specific definition is "
+                                   f"{None if cand is None else cand['tag']}")
                             break
+                        if cp is not None and s is None and cand["sub"] is None:
+                            dflt = dict(hc.SIMPLE_CPS)[n]
+                            expv = cand["value"] or dflt
+                            if res[-1][1] != [cc.w_name(expv)]:
+                                bad = f"L{i}: value of {n} is {res[-1][1]}, expected {expv!r} (default {dflt})"
+                                break
             if bad is None:
                 # typed accessors = numeric content
+                protos_ = [None] + [L["id"] for L in layers if L["type"] == 0]
                 for acc, n, s in (("get_can_baudrate", "CP_Baudrate", None), ("get_can_func_req_id", "CP_CanFuncReqId", None),
                                   ("get_can_receive_id", "CP_UniqueRespIdTable", "CP_CanPhysReqId"),
                                   ("get_can_send_id", "CP_UniqueRespIdTable", "CP_CanRespUSDTId")):
-                    for p in [None] + [L["id"] for L in layers if L["type"] == 0]:
+                    for p in protos_:
                         pn = None if p is None else f"L{p}"
                         fn = getattr(dl, acc, None)
                         if fn is None:
                             continue
                         v, e4, _ = cc.guarded(lambda: fn(protocol=pn))
                         cp = dl.get_comparam(n, protocol=pn)
+                        e5 = None
                         if cp is None:
                             expn = None
                         else:
@@ -261,6 +279,25 @@ def main(argv=None):
                             break
                     if bad:
                         break
+                # derived CAN-FD accessors: defined through the per-protocol lookups above
+                for p in protos_ if bad is None else []:
+                    pn = None if p is None else f"L{p}"
+                    rx, e6, _ = cc.guarded(lambda: dl.get_can_receive_id(protocol=pn))
+                    if e6 is not None:
+                        continue
+                    fdp = dl.get_comparam("CP_CANFDTxMaxDataLength", protocol=pn)
+                    want_fd = rx is not None and fdp is not None and "CANFD" in fdp.value
+                    got_fd, e7, _ = cc.guarded(lambda: dl.uses_can_fd(protocol=pn))
+                    if e7 is None and got_fd != want_fd:
+                        bad = f"L{i}.uses_can_fd(protocol={pn}) = {got_fd}, the parameters of that protocol say {want_fd}"
+                        break
+                    brp = dl.get_comparam("CP_CANFDBaudrate", protocol=pn)
+                    if want_fd and brp is not None:
+                        wb = int(brp.get_value())
+                        gb, e8, _ = cc.guarded(lambda: dl.get_can_fd_baudrate(protocol=pn))
+                        if e8 is None and gb != wb:
+                            bad = f"L{i}.get_can_fd_baudrate(protocol={pn}) = {gb}, numeric content is {wb}"
+                            break
             if bad:
                 ck.violation(bad, rep)
                 break
